@@ -4,7 +4,7 @@ from props import adapt_common as ac
 
 ID = "C15"
 AREA = "adapt"
-COQ_TARGETS = ["theories/Props/C15.vo"]
+COQ_TARGETS = ["theories/Props/C15.vo", "theories/Base/AsyncSan.vo", "theories/Mp4/San.vo"]   # the adapt extraction also carries C12's sanitizer-level model
 REQUIRES = ["From Coq Require Import List NArith ZArith Bool.", "From Coq.Strings Require Import Byte.",
             "From MS Require Import Base.Bytes Base.Outcome Base.Cursor Base.Adapters Base.AdaptersSpec Base.AdaptersProofsVcur Base.Async Props.C15.",
             "Import ListNotations.", "Open Scope N_scope."]
